@@ -92,6 +92,12 @@ func TestVerifC14(t *testing.T) {
 		for _, k := range specials {
 			bcs = append(bcs, bcase{si, k, s.name + ":special"})
 		}
+		// scalars from the LIMB GRID around n (at and above the order: [k]G = [k mod n]G whatever reduction is used)
+		for gi, k := range ref.LimbGrid(n) {
+			if si == 0 && (hk.Thorough() || gi%4 == int(hk.Seed()%4)) {
+				bcs = append(bcs, bcase{si, k, s.name + ":limb-grid-around-n"})
+			}
+		}
 		for q := 0; q < hk.N(300, 6000); q++ {
 			bcs = append(bcs, bcase{si, new(big.Int).SetBytes(rng.Bytes(32)), s.name + ":random"})
 		}
@@ -273,6 +279,12 @@ func TestVerifC14(t *testing.T) {
 	for _, a := range specials {
 		for _, b := range specials {
 			mcs = append(mcs, mcase{a, b, pts[rng.Intn(len(pts))], "special-pair"})
+		}
+	}
+	for gi, k := range ref.LimbGrid(n) {
+		if hk.Thorough() || gi%3 == int(hk.Seed()%3) {
+			mcs = append(mcs, mcase{k, new(big.Int).SetBytes(rng.Bytes(32)), pts[rng.Intn(len(pts))], "g-from-limb-grid-around-n"})
+			mcs = append(mcs, mcase{new(big.Int).SetBytes(rng.Bytes(32)), k, pts[rng.Intn(len(pts))], "s-from-limb-grid-around-n"})
 		}
 	}
 	// P = [j]G chosen so that intermediate sums collide: [g]G + [s][j]G with g = ± s j, g = s j ± 1 …
